@@ -37,6 +37,7 @@ def main(argv=None):
         if args.replay:
             with open(args.replay) as f:
                 rp = json.load(f)
+            lib.MODE = 'int' if str(rp.get('family') or '').endswith('#int') else 'float'
             try:
                 viols = mod.replay(rp['family'], rp['scene'])
             except lib.ConstructionFailed as cf:
